@@ -332,6 +332,7 @@ def _valid_points(pool, conds):
 
 _MODEL_CACHE = {}
 FREE = {}
+LOCAL = {}
 
 
 def _model_points(hyps, pool):
@@ -346,8 +347,10 @@ def _model_points(hyps, pool):
         aset = set(a.id for a in core.CTX.assume)
         pc = [h for h in hyps if h.id not in aset]
         # only the decisions that were genuinely open identify the path; forced ones are implied
-        pc = FREE.get(tuple(c.id for c in pc), pc)
-        rel = smt.relevant([h for h in hyps if h.id in aset], pc) + pc
+        full = tuple(c.id for c in pc)
+        pc = FREE.get(full, pc)
+        # preconditions stated in the middle of a path are hypotheses like the global ones (not implied by anything)
+        rel = smt.relevant([h for h in hyps if h.id in aset] + LOCAL.get(full, []), pc) + pc
         st, model, _ = smt.check(rel, 2000, want_model=True)
         if st == 'sat' and model and all(v is not None for v in model.values()):
             base = {k: v for k, v in model.items() if core.CTX.atoms[k].get('defn') is None}
@@ -385,10 +388,11 @@ def _numeric_check(o, pts):
 DEADLINE = {'t': None}
 
 
-def discharge(o, hyps, pool, budget_ms=20000):
-    """-> dict(status, backend, seconds, witness, detail)"""
+def discharge(o, hyps, pool, budget_ms=20000, pts=None):
+    """-> dict(status, backend, seconds, witness, detail); `pts`: the pool points that satisfy `hyps`, when the caller
+    has them already (they are the same for every obligation of a path)"""
     t0 = time.time()
-    pts = _valid_points(pool, hyps)
+    pts = list(pts) if pts is not None else _valid_points(pool, hyps)
     if not pts:
         pts = _model_points(hyps, pool)
     bad = _numeric_check(o, pts)
@@ -641,6 +645,7 @@ def run_symbolic(contract, cfg, modules, seed=0, pool_size=6, max_paths=64, budg
             for pc, out in ctrl.run(once):
                 per_path.append((pc, out))
                 FREE[tuple(c.id for c in pc)] = list(ctrl.last_free)
+                LOCAL[tuple(c.id for c in pc)] = list(ctrl.last_local)
     except EngineLimit as e:
         run.error = f'{type(e).__name__}: {e}'
         run.stats = dict(ctrl.stats, seconds=time.time() - t0)
@@ -680,8 +685,9 @@ def run_symbolic(contract, cfg, modules, seed=0, pool_size=6, max_paths=64, budg
             run.exits.append(dict(path=pi, pc=[core.show(c, 3) for c in pc[-4:]]))
             continue
         hyps = assume + pc
+        path_pts = _valid_points(pool, hyps) if out[1] else []
         for o in out[1]:
-            r = discharge(o, hyps, pool, budget_ms)
+            r = discharge(o, hyps, pool, budget_ms, pts=path_pts)
             r.update(name=f'{name}:{o.name}' + (f'@p{pi}' if len(per_path) > 1 else ''),
                      canary=o.canary, path=pi, kind=o.kind)
             run.results.append(r)
